@@ -370,3 +370,108 @@ def run(ctx: Ctx):  # noqa: F811
     _run_base(ctx)
     idx = Index(ctx.src, dirs=("generator/plugins/dotnet",))
     _fold_members(ctx, idx)
+
+
+def _fold_message_loops(ctx: Ctx):
+    """The bodies of the two message loops of generate_all_classes are executed in the micro-evaluator for every
+    message of lsp.json (generate_class_from_struct / type naming stubbed).  From the captured calls: the class a
+    request is emitted as, the class its response is emitted as, and the attributes of both.  LSPRequest must carry
+    the exact method string and typeof(<the response class that is actually emitted>), LSPResponse must carry
+    typeof(<the request class that is actually emitted>), Direction the message's own direction."""
+    import re as _re
+    from .. import microeval
+    from ..microeval import Record, Raised, ModuleRef
+    from ..common import P_LSPJSON
+    idx = Index(ctx.src, dirs=("generator/plugins/dotnet",))
+    cm = idx.get(P_CLASSES)
+    hm = idx.get("generator/plugins/dotnet/dotnet_helpers.py")
+    gac = cm.functions.get("generate_all_classes")
+    loops = [n for n in ast.walk(gac) if isinstance(n, ast.For) and dotted(n.iter) in ("spec.requests", "spec.notifications")]
+    data = ctx.src.json(P_LSPJSON)
+    hit = microeval.Interp(hm.tree, name=hm.rel)
+    n = 0
+    for loop in loops:
+        which = dotted(loop.iter)
+        lv = _targets(loop.target)[0]
+        msgs = data["requests"] if which == "spec.requests" else data["notifications"]
+        for raw in msgs:
+            it = microeval.Interp(cm.tree, name=P_CLASSES)
+            for nm, v in hit.globals.items():
+                it.globals.setdefault(nm, v)
+            calls = []
+            it.globals["generate_class_from_struct"] = ("host", lambda *a, **k: calls.append((a, k)))
+            it.globals["get_type_name"] = ("host", lambda *a, **k: "SomeType")
+            it.globals["get_registration_options_template"] = ("host", lambda *a, **k: None)
+            it.globals["cattrs"] = ModuleRef("cattrs", attrs={"unstructure": ("host", lambda x, *a: x)})
+            it.globals["model"] = ModuleRef("model", attrs={"Structure": ("host", lambda **kw: Record("Structure", kw))})
+
+            def T(d):
+                return Record("Type", {k: (T(v) if isinstance(v, dict) else v) for k, v in d.items()}) if isinstance(d, dict) else d
+            fields = {k: raw.get(k) for k in ("method", "messageDirection", "typeName", "documentation", "since", "proposed",
+                                               "deprecated", "registrationMethod")}
+            for k in ("params", "result", "partialResult", "registrationOptions", "errorData"):
+                fields[k] = T(raw[k]) if raw.get(k) else None
+            msg = Record("Message", fields)
+            env = {lv: msg, "spec": Record("Spec", {}), "types": Record("Types", {}), "__parent__": None}
+            try:
+                it.exec_block(loop.body, env)
+            except Raised as e:
+                raise AnalysisError(f"{P_CLASSES}: the body of the loop over {which} raises {e.exc_name} when folded for "
+                                    f"{raw['method']}")
+            n += 1
+            emitted = []
+            for a, k in calls:
+                struct = a[0] if a else k.get("struct")
+                attrs_ = (a[4] if len(a) > 4 else k.get("attributes")) or []
+                name = struct.fields.get("name") if isinstance(struct, Record) else None
+                emitted.append((name, [x for x in attrs_ if isinstance(x, str)]))
+            m = raw["method"]
+            want_dir = f"[Direction(MessageDirection.{raw['messageDirection'][0].upper() + raw['messageDirection'][1:]})]"
+            if which == "spec.requests":
+                req = next(((nm, at) for nm, at in emitted if any(x.startswith("[LSPRequest(") for x in at)), None)
+                resp = next(((nm, at) for nm, at in emitted if any(x.startswith("[LSPResponse(") for x in at)), None)
+                if not ctx.check(req is not None and resp is not None, "message-classes-emitted", f"method={m}",
+                                 f"no request / response class with LSPRequest / LSPResponse metadata is emitted for {m}",
+                                 P_CLASSES, loop.lineno):
+                    continue
+                lr = next(x for x in req[1] if x.startswith("[LSPRequest("))
+                mm_ = _re.match(r'\[LSPRequest\("([^"]*)", typeof\(([^)]*)\)', lr)
+                ctx.check(bool(mm_) and mm_.group(1) == m, "verbatim-wire-data", f"method={m}:LSPRequest",
+                          f"LSPRequest attribute folds to {lr}; the method string is {m!r}", P_CLASSES, loop.lineno)
+                ctx.check(bool(mm_) and mm_.group(2) == resp[0], "request-response-pairing", f"method={m}:LSPRequest.typeof",
+                          f"{req[0]} is tagged {lr} but the response class emitted for it is {resp[0]}", P_CLASSES, loop.lineno,
+                          sample={"method": m, "request": req[0], "response": resp[0], "attribute": lr})
+                ls = next(x for x in resp[1] if x.startswith("[LSPResponse("))
+                mm2 = _re.match(r'\[LSPResponse\(typeof\(([^)]*)\)', ls)
+                ctx.check(bool(mm2) and mm2.group(1) == req[0], "request-response-pairing", f"method={m}:LSPResponse.typeof",
+                          f"{resp[0]} is tagged {ls} but the request class emitted is {req[0]}", P_CLASSES, loop.lineno)
+                dirs = [x for x in req[1] if x.startswith("[Direction(")]
+            else:
+                cls_ = emitted[0] if emitted else (None, [])
+                ctx.check(bool(emitted), "message-classes-emitted", f"method={m}", f"no class is emitted for {m}", P_CLASSES, loop.lineno)
+                dirs = [x for x in cls_[1] if x.startswith("[Direction(")]
+            ctx.check(dirs == [want_dir], "direction-of-own-message", f"method={m}:Direction",
+                      f"the class emitted for {m} carries {dirs}; the metamodel says {want_dir}", P_CLASSES, loop.lineno)
+    ctx.floor("messages folded through generate_all_classes", n, 90)
+
+
+def _dotnet_flatten(ctx: Ctx):
+    from .. import flatten
+    idx = Index(ctx.src, dirs=("generator/plugins/dotnet",))
+    spec, structs = flatten.lattice()
+    for sname in ("A", "B", "C"):
+        exp = flatten.expected(structs, sname)
+        got = flatten.fold_plain(idx, flatten.P_DN, spec, structs, sname)
+        for k in sorted(set(exp) | set(got)):
+            ctx.check(exp.get(k) == got.get(k), "one-member-per-flattened-property", f"struct={sname} prop={k}",
+                      f"dotnet get_all_properties gives {sname}.{k} the declaration of {got.get(k)!r}; the nearest declaration is "
+                      f"{exp.get(k)!r}: the member gets the base structure's type / nullability", flatten.P_DN, None)
+
+
+_run_c08b = run
+
+
+def run(ctx: Ctx):  # noqa: F811
+    _run_c08b(ctx)
+    _fold_message_loops(ctx)
+    _dotnet_flatten(ctx)
